@@ -61,18 +61,27 @@ def evaluate(sid, thorough=False, all_props=False):
         if all_props:
             props = [f"C{n:02d}" for n in range(1, 21)]
         res["checks"] = {}
+        seeds = [int(x) for x in os.environ.get("SEED_EVAL_SEEDS", "1").split(",")]
+        res["seeds_tried"] = seeds
+        res["quick_exit_by_seed"] = {}
         for p in props:
             for tier in (["quick", "thorough"] if thorough else ["quick"]):
-                t0 = time.time()
-                rc, out = sh(f"./check {p} {tier} --no-evidence", cwd=HERE, env={"VERIF_REPO": wt}, timeout=7200)
-                lines = [l for l in out.splitlines() if l.startswith("  check=")]
-                res["checks"][f"{p}:{tier}"] = {"exit": rc, "wall_s": round(time.time() - t0, 1),
-                                                "clauses": [l.strip()[:300] for l in lines[:4]]}
-                if rc == 1:
+                for sd in (seeds if tier == "quick" else seeds[:1]):
+                    t0 = time.time()
+                    rc, out = sh(f"./check {p} {tier} --no-evidence", cwd=HERE, env={"VERIF_REPO": wt, "VERIF_SEED": str(sd)}, timeout=7200)
+                    lines = [l for l in out.splitlines() if l.startswith("  check=")]
+                    key = f"{p}:{tier}" if sd == seeds[0] else f"{p}:{tier}:seed{sd}"
+                    res["checks"][key] = {"exit": rc, "seed": sd, "wall_s": round(time.time() - t0, 1),
+                                          "clauses": [l.strip()[:300] for l in lines[:4]]}
+                    if p == prop and tier == "quick":
+                        res["quick_exit_by_seed"][str(sd)] = rc
+                if any(v["exit"] == 1 for k, v in res["checks"].items() if k.startswith(f"{p}:{tier}")):
                     break
         own = [v for k, v in res["checks"].items() if k.startswith(prop + ":")]
         res["detected"] = any(v["exit"] == 1 for v in own)
         res["detected_tier"] = next((k.split(":")[1] for k, v in res["checks"].items() if k.startswith(prop + ":") and v["exit"] == 1), None)
+        q = res["quick_exit_by_seed"]
+        res["quick_detection_rate"] = f"{sum(1 for v in q.values() if v == 1)}/{len(q)}"
         return res
     finally:
         sh(f"git -C /repo worktree remove --force {wt}")
@@ -92,6 +101,7 @@ def main():
         with open(os.path.join(SEEDED, r["id"], "result.json"), "w") as fd:
             json.dump(r, fd, indent=1)
         print(r["id"], "detected" if r.get("detected") else "MISSED", r.get("detected_tier"), r.get("error", ""),
+              r.get("quick_detection_rate"),
               "| tests_pass=%s demo_fails=%s demo_ok_clean=%s" % (r.get("repo_tests_pass"), r.get("demo_fails_with_change"), r.get("demo_passes_without_change")))
     # summary over everything on disk
     rows = []
@@ -101,7 +111,7 @@ def main():
             rows.append(json.load(open(p)))
     with open(os.path.join(SEEDED, "SUMMARY.md"), "w") as fd:
         fd.write("# Seeded breaking changes and which check catches them\n\n")
-        fd.write("| id | property | change | survives repo tests | caught by | first violated clause |\n|---|---|---|---|---|---|\n")
+        fd.write("| id | property | change | survives repo tests | caught by | quick tier, seeds detecting / tried | first violated clause |\n|---|---|---|---|---|---|---|\n")
         for r in rows:
             caught = f"./check {r['property']} {r.get('detected_tier')}" if r.get("detected") else "**missed**"
             cl = ""
@@ -109,7 +119,7 @@ def main():
                 if v["exit"] == 1 and v["clauses"]:
                     cl = v["clauses"][0].replace("|", "/")[:160]
                     break
-            fd.write(f"| {r['id']} | {r.get('property')} | {str(r.get('summary'))[:140].replace('|', '/')} | {r.get('repo_tests_pass')} | {caught} | {cl} |\n")
+            fd.write(f"| {r['id']} | {r.get('property')} | {str(r.get('summary'))[:140].replace('|', '/')} | {r.get('repo_tests_pass')} | {caught} | {r.get('quick_detection_rate', '')} | {cl} |\n")
     print("summary written")
 
 
